@@ -700,7 +700,7 @@ impl Prop for MemProp {
 
     fn wall_cap(&self, tier: Tier) -> Duration {
         match tier {
-            Tier::Quick => Duration::from_secs(50),
+            Tier::Quick => Duration::from_secs(150),
             Tier::Thorough => Duration::from_secs(1200),
         }
     }
